@@ -44,6 +44,8 @@ type EvCall struct {
 	Name  string             `json:"name,omitempty"`
 	Apply string             `json:"apply,omitempty"` // ok fail noop nilrev
 	Rev   *gen.Val           `json:"rev,omitempty"`   // old value(s) returned by the apply handler
+	// FailKind: the error of a failing apply handler ("" plain error, notfound, reserr).
+	FailKind string `json:"failKind,omitempty"`
 }
 
 // Callback is one callback.
@@ -168,7 +170,7 @@ func (h *harness) handlerOpts(cfg Config, typ string) []res.Option {
 			h.conn.Note("apply", r.ResourceName(), "change "+js(ch))
 			switch c.Apply {
 			case "fail":
-				return nil, errors.New("apply failed")
+				return nil, c.failErr()
 			case "noop":
 				return map[string]interface{}{}, nil
 			case "nilrev":
@@ -190,7 +192,7 @@ func (h *harness) handlerOpts(cfg Config, typ string) []res.Option {
 			c := h.current()
 			h.conn.Note("apply", r.ResourceName(), fmt.Sprintf("add %s %d", js(v), idx))
 			if c.Apply == "fail" {
-				return errors.New("apply failed")
+				return c.failErr()
 			}
 			return nil
 		}))
@@ -200,7 +202,7 @@ func (h *harness) handlerOpts(cfg Config, typ string) []res.Option {
 			c := h.current()
 			h.conn.Note("apply", r.ResourceName(), fmt.Sprintf("remove %d", idx))
 			if c.Apply == "fail" {
-				return nil, errors.New("apply failed")
+				return nil, c.failErr()
 			}
 			if c.Rev != nil {
 				return c.Rev.Go(), nil
@@ -213,7 +215,7 @@ func (h *harness) handlerOpts(cfg Config, typ string) []res.Option {
 			c := h.current()
 			h.conn.Note("apply", r.ResourceName(), "create "+js(data))
 			if c.Apply == "fail" {
-				return errors.New("apply failed")
+				return c.failErr()
 			}
 			return nil
 		}))
@@ -223,7 +225,7 @@ func (h *harness) handlerOpts(cfg Config, typ string) []res.Option {
 			c := h.current()
 			h.conn.Note("apply", r.ResourceName(), "delete")
 			if c.Apply == "fail" {
-				return nil, errors.New("apply failed")
+				return nil, c.failErr()
 			}
 			if c.Rev != nil {
 				return c.Rev.Go(), nil
@@ -312,6 +314,18 @@ func (h *harness) build(cfg Config) *res.Service {
 		sub.AddListener("$id", h.listener(ids[2]))
 	}
 	return s
+}
+
+// failErr is the error a failing apply handler returns: a plain error or one of the
+// library's own error values (whatever its code, the event must not happen).
+func (c *EvCall) failErr() error {
+	switch c.FailKind {
+	case "notfound":
+		return res.ErrNotFound
+	case "reserr":
+		return &res.Error{Code: "custom.apply", Message: "apply failed"}
+	}
+	return errors.New("apply failed")
 }
 
 func (h *harness) exec(r res.Resource, req res.CallRequest, sc []EvCall) {
@@ -755,6 +769,9 @@ func genCall(t *rapid.T, class string) EvCall {
 	}
 	c := EvCall{Op: rapid.SampledFrom(ops).Draw(t, "op")}
 	c.Apply = rapid.SampledFrom([]string{"ok", "ok", "ok", "fail", "noop", "nilrev"}).Draw(t, "apply")
+	if c.Apply == "fail" {
+		c.FailKind = rapid.SampledFrom([]string{"", "notfound", "reserr"}).Draw(t, "failkind")
+	}
 	if c.Apply == "noop" && c.Op != "change" {
 		c.Apply = "ok"
 	}
@@ -793,7 +810,7 @@ func genCall(t *rapid.T, class string) EvCall {
 			c.Rev = &v
 		}
 	case "custom":
-		c.Name = rapid.SampledFrom([]string{"foo", "bar", "custom", "change", "delete", "add", "remove", "patch", "reaccess", "unsubscribe", "query", "a.b", "", "a b", "x*", "~ok"}).Draw(t, "name")
+		c.Name = rapid.SampledFrom([]string{"foo", "bar", "custom", "change", "delete", "add", "remove", "patch", "reaccess", "unsubscribe", "query", "a.b", "", "a b", "x*", "~ok", "ändrad", "日本", "ok\u2028", "\x80"}).Draw(t, "name")
 		if rapid.Bool().Draw(t, "haspayload") {
 			v := gen.Val{Kind: "json", JSON: gen.JSONText(2).Draw(t, "payload")}
 			c.V = &v
